@@ -72,7 +72,7 @@ def param_values(bd, rng, name, key):
     t = bd[2] if len(bd) > 2 else "cc"
     span = (hi - lo) if np.isfinite(hi) else 4.0
     vals = []
-    if key == "alpha":
+    if key == "alpha" and name in ("Stable", "TPLStable"):
         vals.append(("lo", 0.05))      # open bound 0; below ~0.002*hurst the code's recursion depth is exceeded (known finding)
     else:
         vals.append(("lo", lo if t[0] == "c" else lo + 1e-3 * span))
@@ -261,7 +261,8 @@ def run(ctx, only=None):
 
     import time
     try:
-        stages = [("corr", lambda: correspondence(ctx, gs, gsp, check_arg_in_bounds, drv, rng, thorough, corr_fail) if drv is not None else None),
+        stages = [("corpus", lambda: corpus(ctx, gs)),
+                  ("corr", lambda: correspondence(ctx, gs, gsp, check_arg_in_bounds, drv, rng, thorough, corr_fail) if drv is not None else None),
                   ("cor", lambda: probe_cor(ctx, gs, rng, thorough)),
                   ("spectrum", lambda: probe_spectrum(ctx, gs, rng, thorough)),
                   ("eig", lambda: probe_eig(ctx, gs, rng, thorough)),
@@ -392,33 +393,42 @@ def correspondence(ctx, gs, gsp, check_arg_in_bounds, drv, rng, thorough, fail):
 LAGS = np.concatenate([[0.0], 10.0 ** np.arange(-16, 3.01, 0.25)])
 
 
-def probe_cor(ctx, gs, rng, thorough):
-    """correlation is 1 at lag 0, finite, and never above 1 in magnitude (1e-12 for rounding) on a lag grid that
-    includes lags from 1e-16 len_scale on"""
+def configs(gs, rng, thorough, limit):
+    """(class, dim config, dim, parameter signature, parameters) for every configuration accepted without dimension warning"""
     for name in NAMES:
         for cfg in dim_configs(thorough):
             m0, warned, _ = make(gs, name, **cfg)
             if warned:
                 continue
-            for sig, p in param_sets(m0, rng, name, 24 if thorough else 10):
-                for L in (1.0, float(10.0 ** rng.uniform(-2, 3))):
-                    m, _, _ = make(gs, name, len_scale=L, var=float(rng.choice([1.0, 3.7])), **cfg, **p)
-                    r = LAGS * L
-                    c = np.asarray(m.correlation(r), dtype=float)
-                    ctx.count(("cor", name, cfg_tag(cfg), sig), hist=dict(stage="probe-cor", cls=name, dim=cfg_tag(cfg)))
-                    bad = None
-                    if not np.all(np.isfinite(c)):
-                        i = int(np.argmin(np.isfinite(c)))
-                        bad = ("non-finite correlation", i)
-                    elif abs(c[0] - 1.0) > 1e-12:
-                        bad = ("correlation at lag 0 is not 1", 0)
-                    elif np.max(np.abs(c)) > 1.0 + 1e-12:
-                        bad = ("|correlation| exceeds 1", int(np.argmax(np.abs(c))))
-                    if bad:
-                        report(ctx, "probe: correlation 1 at 0 and bounded by 1", "%s: %s(%s, %s, len_scale=%r) at r=%r gives %r" % (
-                            bad[0], name, cfg, p, L, float(r[bad[1]]), float(c[bad[1]])),
-                            dict(probe="cor", cls=name, cfg=cfg, params=p, len_scale=L, r=C.fhex(r[bad[1]]), value=repr(float(c[bad[1]]))),
-                            name, cfg, sig, bad[0].split()[0])
+            for sig, p in param_sets(m0, rng, name, limit):
+                yield name, cfg, m0.dim, sig, p
+
+
+def probe_cor(ctx, gs, rng, thorough):
+    """correlation is 1 at lag 0, finite, and never above 1 in magnitude (1e-12 for rounding) on a lag grid that
+    includes lags from 1e-16 len_scale on"""
+    stage = "probe: correlation 1 at 0 and bounded by 1"
+    for name, cfg, d, sig, p in configs(gs, rng, thorough, 24 if thorough else 10):
+        for L in (1.0, float(10.0 ** rng.uniform(-2, 3))):
+            case = dict(probe="cor", cls=name, cfg=cfg, params=p, len_scale=L)
+
+            def one():
+                m, _, _ = make(gs, name, len_scale=L, var=float(rng.choice([1.0, 3.7])), **cfg, **p)
+                r = LAGS * L
+                c = np.asarray(m.correlation(r), dtype=float)
+                ctx.count(("cor", name, cfg_tag(cfg), sig), hist=dict(stage="probe-cor", cls=name, dim=cfg_tag(cfg)))
+                bad = None
+                if not np.all(np.isfinite(c)):
+                    bad = ("non-finite correlation", int(np.argmin(np.isfinite(c))))
+                elif abs(c[0] - 1.0) > 1e-12:
+                    bad = ("correlation at lag 0 is not 1", 0)
+                elif np.max(np.abs(c)) > 1.0 + 1e-12:
+                    bad = ("|correlation| exceeds 1", int(np.argmax(np.abs(c))))
+                if bad:
+                    report(ctx, stage, "%s: %s(%s, %s, len_scale=%r) at r=%r gives %r" % (
+                        bad[0], name, cfg, p, L, float(r[bad[1]]), float(c[bad[1]])),
+                        dict(case, r=C.fhex(r[bad[1]]), value=repr(float(c[bad[1]]))), name, cfg, sig, bad[0].split()[0])
+            guarded(ctx, stage, name, cfg, sig, case, one)
 
 
 def finding_key(name, cfg, sig, what):
@@ -428,95 +438,149 @@ def finding_key(name, cfg, sig, what):
 def report(ctx, stage, what, case, name, cfg, sig, kind):
     # Integral: exp_int's inc_gamma recursion overflows for large non-integer orders at tiny arguments (known, shared with C03)
     key = finding_key(name, cfg, sig, kind)
-    if name == "Integral" and case.get("params", {}).get("nu", 0) > 12 and abs(case["params"]["nu"] / 2 - round(case["params"]["nu"] / 2)) > 1e-5:
+    nu = case.get("params", {}).get("nu", 0)
+    if name == "Integral" and nu > 30 and abs(nu / 2 - round(nu / 2)) > 1e-5 * (1 + nu / 2) and (
+            "nan" in str(case.get("value", "")) or "nan" in str(case.get("min_eig", ""))):
         key = "Integral:cor-nan:nu-large-noninteger:tiny-lag"
     ctx.violation(stage, what, case, key=key)
+
+
+def guarded(ctx, stage, name, cfg, sig, case, fn):
+    """run one probe case; an unexpected exception of the implementation is a violation with the input"""
+    try:
+        fn()
+    except (Exception, RecursionError) as e:  # noqa: B014
+        report(ctx, stage, "%s(%s, %s) raised %s: %s" % (name, cfg, case.get("params"), type(e).__name__, str(e)[:200]),
+               dict(case, exception=type(e).__name__), name, cfg, sig, "exception:" + type(e).__name__)
+
+
+def corpus(ctx, gs):
+    """past failures of this property (run first).  All but the last were repaired in /repo (fix: commits)"""
+    def chk(ok, key, what, case):
+        ctx.count(("corpus", key), hist=dict(stage="corpus"))
+        if not ok:
+            ctx.violation("corpus: " + key, what, case, key=key)
+    # 1. JBessel, large nu, lags 1e-8..3e-5 len_scale: jv and (h/2)**nu underflowed -> correlation 0 / NaN
+    m, _, _ = make(gs, "JBessel", dim=1, nu=50.0, len_scale=5.0)
+    r = np.array([0.0, 5e-7, 5e-6, 5e-5, 1.4e-4, 5e-4, 5e-3])
+    c = np.asarray(m.correlation(r), dtype=float)
+    chk(bool(np.all(np.isfinite(c)) and np.all(np.abs(c - 1.0) < 1e-6)), "corpus:JBessel:nu=50:tiny-lag",
+        "JBessel(dim=1, nu=50, len_scale=5).correlation(%s) = %s, expected 1 - O(1e-9)" % (r.tolist(), c.tolist()), dict(r=r.tolist(), c=c.tolist()))
+    X = np.array([[0.0], [1e-4], [0.5]])
+    ev = min_eig(cov_matrix_spatial(m, X))
+    chk(ev >= -EIG_TOL * 3, "corpus:JBessel:nu=50:3-points", "points 0, 1e-4, 0.5: min eigenvalue %r" % ev, dict(points=X.tolist(), min_eig=ev))
+    # 2. TPL models: zero-snap of lags below 1e-8 (correlation jumped, exceeded 1 for len_low > 0)
+    m, _, _ = make(gs, "TPLStable", dim=1, hurst=0.1009, alpha=0.05, len_low=0.6)
+    c = float(np.asarray(m.correlation(np.array([1e-8])))[0])
+    chk(np.isfinite(c) and c <= 1.0 + 1e-12, "corpus:TPLStable:len_low>0:lag=1e-8", "correlation(1e-8) = %r > 1" % c, dict(value=c))
+    m, _, _ = make(gs, "TPLGaussian", dim=2, hurst=0.1009)
+    X = np.array([[0.0, 0.0], [0.9e-8, 0.0], [1.8e-8, 0.0]])
+    ev = min_eig(cov_matrix_spatial(m, X))
+    chk(ev >= -EIG_TOL * 3, "corpus:TPLGaussian:chain-1e-8", "three points 0.9e-8 apart: min eigenvalue %r" % ev, dict(points=X.tolist(), min_eig=ev))
+    # 3. Cubic accepted dimension 4 without warning although its 4-D radial spectrum is negative around k = 12 / len_scale
+    m, warned, _ = make(gs, "Cubic", spatial_dim=3, temporal=True)
+    if not warned:
+        v, err = radial_spectrum_quad(lambda r: m.correlation(r), 4, 12.0, rng_hi=1.0)
+        s0q, _ = radial_spectrum_quad(lambda r: m.correlation(r), 4, 1e-3, rng_hi=1.0)
+        wit = lattice_witness(m, 4, 12.0, 1.0) if v < 0 else None
+        chk(v >= -1e-7 * s0q, "corpus:Cubic:3+time:spectrum",
+            "Cubic(spatial_dim=3, temporal=True) gives no dimension warning and its 4-D radial spectrum at k = 12 is %.3e S(0); "
+            "explicit point set: %s" % (v / s0q, wit), dict(relative_value=v / s0q, witness=wit))
+    else:
+        ctx.count(("corpus", "Cubic:3+time:warns"), hist=dict(stage="corpus"))
+    # 4. OPEN: exp_int's inc_gamma recursion is as deep as 2 hurst / alpha (RecursionError near 1000)
+    try:
+        m, _, _ = make(gs, "TPLStable", dim=1, alpha=0.002, hurst=0.9991)
+        c = float(np.asarray(m.correlation(np.array([0.5])))[0])
+        chk(np.isfinite(c) and abs(c) <= 1, "TPLStable:2*hurst/alpha>~990:RecursionError", "correlation(0.5) = %r" % c, dict(value=c))
+    except RecursionError as e:
+        chk(False, "TPLStable:2*hurst/alpha>~990:RecursionError",
+            "TPLStable(dim=1, alpha=0.002, hurst=0.9991).correlation(0.5) raises RecursionError (inc_gamma recursion depth = 2 hurst / alpha)",
+            dict(cls="TPLStable", params=dict(alpha=0.002, hurst=0.9991), r=0.5, exception="RecursionError"))
 
 
 def probe_spectrum(ctx, gs, rng, thorough):
     """sign of the radial spectrum in the dimension of the model.  compact models: own quadrature of the d-dimensional
     radial transform of m.correlation (error ~1e-12 S(0), threshold -1e-7 S(0)); every class: m.spectral_density on a
     log grid (analytic formulas must be >= 0 exactly on k in [0, 1e3/len]; the default Hankel transform is only used for
-    k <= 30/len, where its own noise is ~1e-6..1e-5 S(0) (measured; it grows to 1e-3 S(0) beyond k = 100/len), threshold
-    -1e-3 S(0), and not for parameter sets the class itself warns about as unstable)"""
+    1e-2 <= k len <= 30, where its own noise is ~1e-6..1e-5 of the peak (measured; it grows to 1e-3 beyond k = 100/len),
+    threshold -1e-3 max S, and not for parameter sets the class itself warns about as unstable)"""
     kgrid = np.concatenate([[0.0], 10.0 ** np.linspace(-3, 3, 49 if thorough else 25)])
     kq = np.linspace(0.5, 60.0, 120 if thorough else 40)
-    for name in NAMES:
-        for cfg in dim_configs(thorough):
-            m0, warned, _ = make(gs, name, **cfg)
-            if warned:
-                continue
-            d = m0.dim
-            for sig, p in param_sets(m0, rng, name, 12 if thorough else 5):
-                L = float(rng.choice([0.4, 1.0, 6.0]))
-                m, _, unstable = make(gs, name, len_scale=L, **cfg, **p)
-                ell = float(m.len_rescaled)
-                if name not in ANALYTIC and unstable:
-                    continue                      # the class itself warns "count with unstable results": Hankel transform meaningless
-                kg = kgrid if name in ANALYTIC else kgrid[kgrid <= 30.0]
+    for name, cfg, d, sig, p in configs(gs, rng, thorough, 12 if thorough else 5):
+        L = float(rng.choice([0.4, 1.0, 6.0]))
+        case = dict(probe="spectrum", cls=name, cfg=cfg, params=p, len_scale=L)
+
+        def one():
+            m, _, unstable = make(gs, name, len_scale=L, **cfg, **p)
+            ell = float(m.len_rescaled)
+            if name in ANALYTIC or not unstable:
+                kg = kgrid if name in ANALYTIC else kgrid[(kgrid >= 1e-2) & (kgrid <= 30.0)]
                 s = np.asarray(m.spectral_density(kg / ell), dtype=float)
                 ctx.count(("spectrum", name, cfg_tag(cfg), sig), hist=dict(stage="probe-spectrum", cls=name, dim=cfg_tag(cfg)))
-                s0 = abs(s[0]) if np.isfinite(s[0]) and s[0] != 0 else np.nanmax(np.abs(s))
+                s0 = np.nanmax(np.abs(s))          # S(0) itself may be infinite (Rational alpha = 1/2: long range)
                 tol = 0.0 if name in ANALYTIC else 1e-3 * s0
                 if name in ("TPLGaussian", "TPLExponential") and p.get("len_low", 0.0) != 0.0:
                     tol = 1e-9 * s0                    # difference of two spectra: cancellation
                 if not np.all(np.isfinite(s)) or np.min(s) < -tol:
                     i = int(np.argmin(np.where(np.isfinite(s), s, -np.inf)))
-                    report(ctx, "probe: sign of spectral_density", "%s(%s, %s, len_scale=%r).spectral_density(%r) = %r (S(0) = %r)" % (
-                        name, cfg, p, L, float(kg[i] / ell), float(s[i]), float(s[0])),
-                        dict(probe="spectrum", cls=name, cfg=cfg, params=p, len_scale=L, k=C.fhex(kg[i] / ell), value=repr(float(s[i]))),
-                        name, cfg, sig, "spectral_density<0")
-                if name in COMPACT:
-                    s0q, _ = radial_spectrum_quad(lambda r: m.correlation(r), d, 1e-3 / ell, rng_hi=ell)
-                    worst = None
-                    for k in kq:
-                        v, err = radial_spectrum_quad(lambda r: m.correlation(r), d, k / ell, rng_hi=ell)
-                        if v < -1e-7 * s0q - 10 * err and (worst is None or v < worst[1]):
-                            worst = (k, v)
-                    ctx.count(("spectrum-quad", name, cfg_tag(cfg), sig), hist=dict(stage="probe-spectrum-quad", cls=name, dim=cfg_tag(cfg)))
-                    if worst:
-                        wit = lattice_witness(m, d, worst[0] / ell, ell) if d >= 2 else None
-                        report(ctx, "probe: sign of the d-dimensional radial spectrum (Bessel quadrature of correlation)",
-                               "%s(%s, %s): radial Fourier transform in %d-D at k = %r / len_scale is %.3e * S(0) < 0%s" % (
-                                   name, cfg, p, d, float(worst[0]), worst[1] / s0q,
-                                   "; explicit point set: Rayleigh quotient %.3e" % wit["rayleigh_quotient"] if wit else ""),
-                               dict(probe="spectrum-quad", cls=name, cfg=cfg, params=p, len_scale=L, k_times_ell=float(worst[0]),
-                                    relative_value=worst[1] / s0q, witness=wit),
-                               name, cfg, sig, "radial-spectrum<0")
+                    report(ctx, "probe: sign of spectral_density", "%s(%s, %s, len_scale=%r).spectral_density(%r) = %r (max |S| = %r)" % (
+                        name, cfg, p, L, float(kg[i] / ell), float(s[i]), float(s0)),
+                        dict(case, k=C.fhex(kg[i] / ell), value=repr(float(s[i]))), name, cfg, sig, "spectral_density<0")
+            if name in COMPACT:
+                cor = lambda r: m.correlation(r)
+                s0q, _ = radial_spectrum_quad(cor, d, 1e-3 / ell, rng_hi=ell)
+                worst = None
+                for k in kq:
+                    v, err = radial_spectrum_quad(cor, d, k / ell, rng_hi=ell)
+                    if v < -1e-7 * s0q - 10 * err and (worst is None or v < worst[1]):
+                        worst = (k, v)
+                ctx.count(("spectrum-quad", name, cfg_tag(cfg), sig), hist=dict(stage="probe-spectrum-quad", cls=name, dim=cfg_tag(cfg)))
+                if worst:
+                    # refine the most negative wave number, then build the explicit weighted point set there
+                    from scipy import optimize
+                    res = optimize.minimize_scalar(lambda k: radial_spectrum_quad(cor, d, k / ell, rng_hi=ell)[0],
+                                                   bounds=(max(0.1, worst[0] - 0.8), worst[0] + 0.8), method="bounded")
+                    if res.fun < worst[1]:
+                        worst = (float(res.x), float(res.fun))
+                    wit = lattice_witness(m, d, worst[0] / ell, ell) if d >= 2 else None
+                    report(ctx, "probe: sign of the d-dimensional radial spectrum (Bessel quadrature of correlation)",
+                           "%s(%s, %s): radial Fourier transform in %d-D at k = %r / len_scale is %.3e * S(0) < 0%s" % (
+                               name, cfg, p, d, float(worst[0]), worst[1] / s0q,
+                               "; explicit point set: Rayleigh quotient %.3e" % wit["rayleigh_quotient"] if wit else ""),
+                           dict(case, probe="spectrum-quad", k_times_ell=float(worst[0]), relative_value=worst[1] / s0q, witness=wit),
+                           name, cfg, sig, "radial-spectrum<0")
+        guarded(ctx, "probe: sign of the spectrum", name, cfg, sig, case, one)
 
 
 def probe_eig(ctx, gs, rng, thorough):
     """minimum eigenvalue of covariance matrices built by the implementation (cov_spatial: rotation + anisotropy)"""
     n = 60 if thorough else 40
-    for name in NAMES:
-        for cfg in dim_configs(thorough):
-            m0, warned, _ = make(gs, name, **cfg)
-            if warned:
-                continue
-            d = m0.dim
-            for sig, p in param_sets(m0, rng, name, 14 if thorough else 5):
-                for rep in range(3 if thorough else 2):
-                    L = float(rng.choice([0.3, 1.0, 5.0, 40.0]))
-                    kw = dict(len_scale=L, var=float(rng.choice([1.0, 2.5])))
-                    trans = "iso"
-                    if d > 1 and rep > 0:
-                        kw["anis"] = [float(x) for x in 10.0 ** rng.uniform(-1, 0.7, size=d - 1)]
-                        kw["angles"] = [float(x) for x in rng.uniform(-np.pi, np.pi, size=max(1, d * (d - 1) // 2))]
-                        trans = "anis+rot"
-                    m, _, _ = make(gs, name, **cfg, **kw, **p)
-                    for kind in ("lattice", "cluster", "uniform"):
-                        X = point_set(rng, kind, d, n, float(m.len_rescaled))
-                        Cm = cov_matrix_spatial(m, X)
-                        ev = min_eig(Cm)
-                        ctx.count(("eig", name, cfg_tag(cfg), sig, kind, trans), hist=dict(stage="probe-eig", cls=name, dim=cfg_tag(cfg), points=kind))
-                        ctx.sample(dict(probe="eig", cls=name, cfg=cfg, params=p, model=kw, points=kind, n=len(X), min_eig=ev))
-                        if not (ev >= -EIG_TOL * len(X) * m.var):
-                            report(ctx, "probe: minimum eigenvalue of the covariance matrix",
-                                   "%s(%s, %s, %s): %d %s points, min eigenvalue %r (tolerance %.1e)" % (
-                                       name, cfg, p, kw, len(X), kind, ev, -EIG_TOL * len(X) * m.var),
-                                   dict(probe="eig", cls=name, cfg=cfg, params=p, model=kw, points=[[C.fhex(v) for v in row] for row in X],
-                                        min_eig=repr(ev)),
-                                   name, cfg, sig, "min-eig<0:" + kind)
+    stage = "probe: minimum eigenvalue of the covariance matrix"
+    for name, cfg, d, sig, p in configs(gs, rng, thorough, 14 if thorough else 5):
+        for rep in range(3 if thorough else 2):
+            L = float(rng.choice([0.3, 1.0, 5.0, 40.0]))
+            kw = dict(len_scale=L, var=float(rng.choice([1.0, 2.5])))
+            trans = "iso"
+            if d > 1 and rep > 0:
+                kw["anis"] = [float(x) for x in 10.0 ** rng.uniform(-1, 0.7, size=d - 1)]
+                kw["angles"] = [float(x) for x in rng.uniform(-np.pi, np.pi, size=max(1, d * (d - 1) // 2))]
+                trans = "anis+rot"
+            case = dict(probe="eig", cls=name, cfg=cfg, params=p, model=kw)
+
+            def one():
+                m, _, _ = make(gs, name, **cfg, **kw, **p)
+                for kind in ("lattice", "cluster", "uniform"):
+                    X = point_set(rng, kind, d, n, float(m.len_rescaled))
+                    ev = min_eig(cov_matrix_spatial(m, X))
+                    ctx.count(("eig", name, cfg_tag(cfg), sig, kind, trans), hist=dict(stage="probe-eig", cls=name, dim=cfg_tag(cfg), points=kind))
+                    ctx.sample(dict(probe="eig", cls=name, cfg=cfg, params=p, model=kw, points=kind, n=len(X), min_eig=ev))
+                    if not (ev >= -EIG_TOL * len(X) * m.var):
+                        report(ctx, stage, "%s(%s, %s, %s): %d %s points, min eigenvalue %r (tolerance %.1e)" % (
+                            name, cfg, p, kw, len(X), kind, ev, -EIG_TOL * len(X) * m.var),
+                            dict(case, points=[[C.fhex(v) for v in row] for row in X], min_eig=repr(ev)),
+                            name, cfg, sig, "min-eig<0:" + kind)
+            guarded(ctx, stage, name, cfg, sig, case, one)
 
 
 def haversine_angle(P, Q):
